@@ -374,7 +374,16 @@ class DiagLayer:
                 break
             if -1 in prefix_tree:
                 possible_services += cast(List[DiagService], prefix_tree[-1])
-        return possible_services
+
+        # a service may be encountered multiple times, e.g., if the
+        # prefix of its request is a prefix of one of its responses. It
+        # must only be considered once, though.
+        unique_services: List[DiagService] = []
+        for service in possible_services:
+            if not any(service is x for x in unique_services):
+                unique_services.append(service)
+
+        return unique_services
 
     def _decode(self, message: bytes, candidate_services: Iterable[DiagService]) -> List[Message]:
         decoded_messages: List[Message] = []
